@@ -35,7 +35,6 @@ class Locale:
     _wordchars = None
     _relative_translations = None
     _normalized_relative_translations = None
-    _abbreviations = None
     _split_dictionary = None
     _wordchars_for_detection = None
 
@@ -267,14 +266,10 @@ class Locale:
         return translated, original
 
     def _get_abbreviations(self, settings):
+        # not cached on the locale: the dictionary iterates over the caller's SKIP_TOKENS
+        # too (and depends on NORMALIZE), so the list belongs to this call's settings
         dictionary = self._get_dictionary(settings=settings)
-        abbreviations = []
-        if self._abbreviations is None:
-            for item in dictionary:
-                if item.endswith(".") and len(item) > 1:
-                    abbreviations.append(item)
-            self._abbreviations = abbreviations
-        return self._abbreviations
+        return [item for item in dictionary if item.endswith(".") and len(item) > 1]
 
     def _sentence_split(self, string, settings):
         abbreviations = self._get_abbreviations(settings=settings)
